@@ -157,6 +157,10 @@ def _ED(F, R):
     r_cloud.rule_ED(F, R)
 
 
+def _cleanup_G(F, R):
+    r_cloud.rule_cleanup(F, R, which=("G1", "G2", "G3", "G4"))
+
+
 def _K_core(F, R):
     r_cloud.rule_K(F, R, which=("K2", "K5", "K4"))
 
@@ -172,9 +176,9 @@ G_WIRE = [r_wire.rule_W1, r_wire.rule_W2, r_wire.rule_W3, r_wire.rule_W4]
 G_APPLY = [r_taskdb.rule_A1, r_taskdb.rule_L1, r_taskdb.rule_L2, _T1_commit, r_taskdb.rule_ERR]
 G_SNAP = [r_storage.rule_N3, r_storage.rule_N3_overrides, r_storage.rule_N4, r_storage.rule_N5]
 G_SQLITE = [r_storage.rule_D, r_storage.rule_D6, r_storage.rule_Q1, r_storage.rule_Q2, r_storage.rule_Q3, r_storage.rule_Q4, r_storage.rule_Q5, r_storage.rule_Q7]
-G_INMEM = [r_storage.rule_Q6]
+G_INMEM = [r_storage.rule_Q6, r_storage.rule_Q8]
 G_SRV = [r_servers.rule_P1, r_servers.rule_P2, r_servers.rule_P4, r_servers.rule_P5, r_servers.rule_A1_local, r_servers.rule_A1_drop, _K_core, r_servers.rule_K7,
-         r_servers.rule_GI, r_servers.rule_GC, r_servers.rule_GC3, r_servers.rule_GC4, r_servers.rule_GS1, r_servers.rule_GC6, _ED]
+         r_servers.rule_GI, r_servers.rule_GC, r_servers.rule_GC3, r_servers.rule_GC4, r_servers.rule_GS1, r_servers.rule_GS2, r_servers.rule_GC6, _ED]
 G_CRYPTO = [r_crypto.rule_X1, r_crypto.rule_X2, r_crypto.rule_X3, r_crypto.rule_X4, r_crypto.rule_X5, r_crypto.rule_X6, r_crypto.rule_X7, r_crypto.rule_X8]
 G_WS = [r_taskdb.rule_R1, r_taskdb.rule_R2, r_taskdb.rule_R3, r_taskdb.rule_R4, r_taskdb.rule_R5, r_taskdb.rule_R6, r_taskdb.rule_R7, r_taskdb.rule_R8]
 
@@ -193,9 +197,9 @@ WIRING = {
     "C08": (G_SRV + G_CRYPTO, "every backend's acceptance and retrieval path including the sealing layer the three remote ones share (X2-X4, X7, X8)"),
     "C09": ([r_servers.rule_K7], None),
     "C10": ([_K_all, r_servers.rule_K7], "cleanup is safe only against an add_version that uploads the version before it swaps the head (K5) and never leaves the head naming a missing object (K7)"),
-    "C11": ([r_servers.rule_P5, r_servers.rule_P4], None),
-    "C12": (G_SNAP + G_SYNC + G_INMEM + [r_storage.rule_Q1], None),
-    "C13": ([r_servers.rule_GS1], "the key a handle seals with is the one derived from the salt the remote holds (X7 for the object store, GS1 for git)"),
+    "C11": ([r_servers.rule_P5, r_servers.rule_P4, _cleanup_G, _ED], "a cleanup that stops between its deletions leaves a usable store (G4: snapshots go before the versions behind them)"),
+    "C12": (G_SNAP + G_SYNC + G_INMEM + [r_storage.rule_Q1, _cleanup_G], "a snapshot that is still offered leads to the head: the object store deletes superseded snapshots before the versions behind the retained one (G2-G4)"),
+    "C13": ([r_servers.rule_GS1, r_servers.rule_GS2], "the key a handle seals with is the one derived from the salt the remote holds (X7 for the object store, GS1 for git)"),
     "C14": (G_WIRE + [r_sync.rule_S4, r_sync.rule_S9, r_sync.rule_S10], None),
     "C15": (G_WS + [r_storage.rule_Q3, r_storage.rule_Q6, r_storage.rule_D6], None),
     "C16": (G_SQLITE + G_INMEM + G_SNAP, None),
@@ -226,6 +230,8 @@ def _apply_wiring():
             if n == "_T1_commit" and ("rule_T1" in src_names):
                 continue
             if n == "_ED" and ("rule_ED" in src_names):
+                continue
+            if n == "_cleanup_G" and ("rule_cleanup" in src_names):
                 continue
             spec["rules"].append(r)
             have.add(n)
